@@ -80,11 +80,24 @@ def _impl():
 #   {'t': 'nptuple:int8', 'v': [2, 3]}  tuple of numpy integers
 #   {'t': 'arr:int32', 'v': [2, 3]}     integer array
 #   {'t': 'neg', 'v': [2, -1]} / {'t': 'negint', 'v': -1} / {'t': 'str'} / {'t': 'float'} / {'t': 'tuplefloat'}
-INT_TYPES = ('int8', 'uint8', 'int16', 'uint16', 'int32', 'uint32', 'int64', 'uint64')
+INT_TYPES = ('int8', 'uint8', 'int16', 'uint16', 'int32', 'uint32', 'int64', 'uint64',
+             'intp', 'uintp', 'longlong', 'ulonglong', 'short', 'ushort', 'intc', 'uintc', 'byte', 'ubyte')
+# argument FORMS (R8): a size spec may be wrapped as {'form': 'kw' | 'none', 'a': spec}: the call is made by
+# keyword (num_samples=...) / with an explicit None instead of leaving the argument out
+QUERIES = ('get_samples', 'shape', 'L', 'Ts', 'Fd', 'repr', 'str', 'eq', 'hash', 'current_time', 'dir', 'vars',
+           'copy', 'deepcopy', 'pickle', 'similar')
+
+
+def unform(spec):
+    if isinstance(spec, dict) and 'form' in spec:
+        return spec['form'], spec['a']
+    return None, spec
+
 FLOAT_TYPES = ('float16', 'float32', 'float64')
 
 
 def mk_size(spec):
+    spec = unform(spec)[1]
     if spec is None or isinstance(spec, int):
         return spec
     t, v = spec['t'], spec.get('v')
@@ -108,6 +121,7 @@ def mk_size(spec):
 def size_value(spec):
     """('ok', n) integer-valued object with value n >= 0 | ('reject', kind) must raise |
     ('either', n) integral float: may be refused or taken as n"""
+    spec = unform(spec)[1]
     if spec is None:
         return 'ok', 1
     if isinstance(spec, int):
@@ -122,6 +136,7 @@ def size_value(spec):
 
 def size_tok(spec):
     """the model's view of the argument: its integer value, or x = not an integer object"""
+    spec = unform(spec)[1]
     if spec is None:
         return ''
     if isinstance(spec, int):
@@ -133,6 +148,7 @@ def size_tok(spec):
 
 
 def size_dtype(spec):
+    spec = unform(spec)[1]
     return None if (spec is None or isinstance(spec, int)) else spec['t']
 
 
@@ -213,7 +229,74 @@ def op_tok(op):
         return 'g' + size_tok(arg)
     if kind == 's':
         return 's' + size_tok(arg)
+    if kind == 'Q':
+        return 'q'
     return 'S' + shape_tok(arg)
+
+
+def call_size_op(g, kind, spec):
+    """issue generate_more_samples / skip_samples_for_next_generation in the argument form of the spec"""
+    form, a = unform(spec)
+    obj = mk_size(a)
+    if kind == 's':
+        if form == 'kw':
+            g.skip_samples_for_next_generation(num_samples=obj)
+        else:
+            g.skip_samples_for_next_generation(obj)
+    elif a is None and form != 'none':
+        g.generate_more_samples()
+    elif form == 'kw':
+        g.generate_more_samples(num_samples=obj)
+    else:
+        g.generate_more_samples(obj)
+    return obj
+
+
+def derive(g, how):
+    """an object obtained FROM a generator (R13)"""
+    import copy as _copy
+    import pickle as _pickle
+    if how == 'copy':
+        return _copy.copy(g)
+    if how == 'deepcopy':
+        return _copy.deepcopy(g)
+    if how == 'pickle':
+        return _pickle.loads(_pickle.dumps(g))
+    if how == 'similar':
+        return g.get_similar_fading_generator()
+    raise ValueError(how)
+
+
+def do_query(g, name, use_child=True):
+    """one call of the non-mutating API (R11); derived objects are also USED, which must not reach
+    back into the generator they came from (R13)"""
+    if name == 'get_samples':
+        g.get_samples()
+        g.get_samples()
+    elif name in ('shape', 'L', 'Ts', 'Fd'):
+        getattr(g, name)
+    elif name == 'repr':
+        repr(g)
+    elif name == 'str':
+        str(g)
+    elif name == 'eq':
+        (g == g, g != derive(g, 'copy'))
+    elif name == 'hash':
+        hash(g)
+    elif name == 'current_time':
+        g._current_time
+    elif name == 'dir':
+        dir(g)
+    elif name == 'vars':
+        dict(vars(g))
+    else:
+        child = derive(g, name)
+        if use_child:
+            child.generate_more_samples(3)
+            child.skip_samples_for_next_generation(2)
+            if name != 'copy':          # a shallow copy documents nothing about the shared RandomState
+                child.shape = 2
+                child.generate_more_samples(2)
 
 
 def mk_param(v, t):
@@ -257,6 +340,12 @@ def case_tag(case, arg=None):
         tags.append('layout=' + case['seed']['layout'])
     if case.get('scale_exp10'):
         tags.append('scaled')
+    if case.get('ctor'):
+        tags.append('ctor=' + case['ctor'])
+    if any(o[0] in 'gs' and unform(o[1])[0] for o in case.get('ops', [])):
+        tags.append('call-forms')
+    if any(o[0] == 'Q' for o in case.get('ops', [])) and not isinstance(arg, dict):
+        tags.append('queries')
     return ','.join(tags)
 
 
@@ -398,26 +487,57 @@ def scaled(case):
     return case['Fd'] * (10.0 ** e), case['Ts'] / (10.0 ** e)
 
 
+DEFAULTS = {'Fd': 100, 'Ts': 1e-3, 'L': 8, 'shape': None}
+
+
 def make_gen(case, cls=None, rs=None, shape_obj='build'):
+    """build the generator in the argument form case['ctor'] (R8): positional (default), 'kw', 'kw-shuffled',
+    'mixed' (Fd, Ts positional), 'omit-defaults' (parameters equal to their documented default are left
+    out), 'explicit-none-shape' is the ordinary shape=None; 'global-rs': RS left out, numpy's global
+    generator seeded with the case seed instead (the documented default RS)"""
     fg = _impl()
     cls = cls or fg.JakesSampleGenerator
     types = case.get('types') or {}
     Fd, Ts = scaled(case)
-    return cls(mk_param(Fd, types.get('Fd')), mk_param(Ts, types.get('Ts')),
-               mk_param(int(case['L']), types.get('L')),
-               mk_shape(case['shape']) if isinstance(shape_obj, str) else shape_obj,
-               rs if rs is not None else make_rs(case['seed']))
+    form = case.get('ctor')
+    args = {'Fd': mk_param(Fd, types.get('Fd')), 'Ts': mk_param(Ts, types.get('Ts')),
+            'L': mk_param(int(case['L']), types.get('L')),
+            'shape': mk_shape(case['shape']) if isinstance(shape_obj, str) else shape_obj}
+    if form == 'global-rs' and rs is None:
+        np.random.seed(int(case['seed']))
+        rs_kw = {}
+    else:
+        rs_kw = {'RS': rs if rs is not None else make_rs(case['seed'])}
+    if form in (None, 'global-rs'):
+        if rs_kw:
+            return cls(args['Fd'], args['Ts'], args['L'], args['shape'], rs_kw['RS'])
+        return cls(args['Fd'], args['Ts'], args['L'], args['shape'])
+    if form == 'mixed':
+        return cls(args['Fd'], args['Ts'], shape=args['shape'], L=args['L'], **rs_kw)
+    if form == 'omit-defaults':
+        kw = {k: v for k, v in args.items()
+              if not (types.get(k) is None and not case.get('scale_exp10') and case[k] == DEFAULTS[k]
+                      and type(case[k]) is type(DEFAULTS[k]))}
+        return cls(**kw, **rs_kw)
+    kw = dict(args, **rs_kw)
+    if form == 'kw-shuffled':
+        keys = sorted(kw, key=lambda k: (hash((k, int(case['seed']) if not isinstance(case['seed'], dict) else 0)) & 0xffff))
+        kw = {k: kw[k] for k in keys}
+    return cls(**kw)
 
 
 def twin_case(case):
-    """the canonical twin: Python ints / float64 / C layout / unscaled, rejected calls left out"""
-    t = {k: v for k, v in case.items() if k not in ('types', 'scale_exp10')}
+    """the canonical twin: positional Python ints / float64 / C layout / unscaled / explicit RandomState,
+    rejected calls and non-mutating calls left out"""
+    t = {k: v for k, v in case.items() if k not in ('types', 'scale_exp10', 'ctor')}
     if isinstance(case.get('seed'), dict) and 'layout' in case['seed']:
         t['seed'] = case['seed']['seed']
     st, val = shape_value(case['shape'])
     t['shape'] = None if val is None else list(val)
     ops = []
     for kind, arg in case['ops']:
+        if kind == 'Q':
+            continue
         if kind == 'S':
             st, val = shape_value(arg)
             if st == 'ok':
@@ -425,7 +545,7 @@ def twin_case(case):
         else:
             st, val = size_value(arg)
             if st == 'ok':
-                ops.append([kind, None if arg is None else val])
+                ops.append([kind, None if unform(arg)[1] is None else val])
             elif st == 'either':
                 ops.append([kind, {'either': val}])
     t['ops'] = ops
@@ -504,6 +624,23 @@ def o_history(case):
         return None
 
     for step_no, (kind, arg, is_ctor) in enumerate(pending):
+        if kind == 'Q':
+            # R11: a call of the non-mutating API (derived objects are used, R13) changes nothing observable
+            before = observables(g)
+            try:
+                do_query(g, arg)
+            except Exception as e:
+                return cls('exception:' + type(e).__name__, case, k, 1, {'t': 'query:' + arg}), \
+                    'query %s at sample %d: %r' % (arg, k, e)
+            d = diff_observables(before, observables(g))
+            if d:
+                return cls('query-changed-state', case, k, 1, {'t': 'query:' + arg}), \
+                    'the non-mutating call %s at sample %d changed %s' % (arg, k, d)
+            bad = earlier_outputs_intact()
+            if bad is not None:
+                return cls('output-changed-by-later-call', case, k, 1, {'t': 'query:' + arg}), \
+                    'query %s changed an array returned earlier' % arg
+            continue
         if kind == 'S':
             st, val = shape_value(arg)
             obj = mk_shape(arg)
@@ -540,12 +677,7 @@ def o_history(case):
         before = observables(g) if st != 'ok' else None
         try:
             if not is_ctor:
-                if kind == 's':
-                    g.skip_samples_for_next_generation(obj)
-                elif arg is None:
-                    g.generate_more_samples()
-                else:
-                    g.generate_more_samples(obj)
+                call_size_op(g, kind, arg)
             raised = None
         except Exception as e:
             raised = e
@@ -626,8 +758,8 @@ def o_twin(case):
     L = int(case['L'])
     tw = twin_case(case)
     try:
-        a = make_gen(case)
         b = make_gen(tw)
+        a = make_gen(case)
     except Exception as e:
         return cls('exception:' + type(e).__name__, case, 0, 1), 'constructor: %r' % (e,)
     if not (np.array_equal(a._phi_l, b._phi_l) and np.array_equal(a._psi_l, b._psi_l)):
@@ -637,18 +769,16 @@ def o_twin(case):
     ks = [0]
     for kind, arg in case['ops']:
         try:
-            if kind == 'S':
+            if kind == 'Q':
+                st, val = 'ok', 0
+                do_query(a, arg)
+            elif kind == 'S':
                 st, val = shape_value(arg)
                 a.shape = mk_shape(arg)
             else:
                 st, val = size_value(arg)
-                if kind == 's':
-                    a.skip_samples_for_next_generation(mk_size(arg))
-                else:
-                    if arg is None:
-                        a.generate_more_samples()
-                    else:
-                        a.generate_more_samples(mk_size(arg))
+                call_size_op(a, kind, arg)
+                if kind == 'g':
                     outs_a.append(a.get_samples())
                     ks.append(k)
                 k += val
@@ -1309,8 +1439,15 @@ def ulps(a, b):
     return abs(a - b) / math.ulp(max(abs(a), abs(b)))
 
 
+_PROBE_CLASS = None
+
+
 def probe_class():
-    """subclass of the real generator that records the time vector of every request"""
+    """subclass of the real generator that records the time vector of every request (module level
+    name, so that instances can be pickled)"""
+    global _PROBE_CLASS
+    if _PROBE_CLASS is not None:
+        return _PROBE_CLASS
     fg = _impl()
 
     class Probe(fg.JakesSampleGenerator):
@@ -1323,6 +1460,13 @@ def probe_class():
             self.verif_times.append(np.array(t, dtype=float).ravel().copy())
             return t
 
+        def get_similar_fading_generator(self):
+            return fg.JakesSampleGenerator.get_similar_fading_generator(self)
+
+    Probe.__qualname__ = '_PROBE_CLASS'
+    Probe.__name__ = '_PROBE_CLASS'
+    Probe.__module__ = __name__
+    _PROBE_CLASS = Probe
     return Probe
 
 
@@ -1339,68 +1483,67 @@ def fmt_shape(sh):
         return 'bad(%.20r)' % (sh,)
 
 
-def impl_history(case, Probe):
-    """run a raw history (typed arguments, rejected calls included) on the real generator; one
-    canonical state string per state (constructor first) + the numeric material for the value /
-    time comparison + whether every array handed out is still what it was (R3)"""
-    Ts = scaled(case)[1]
-    ctor_shape = mk_shape(case['shape'])
-    g = make_gen(case, Probe, shape_obj=ctor_shape)
-    if isinstance(ctor_shape, list):
-        ctor_shape.append(5)            # the caller goes on using its own list
-    states, blocks = [], []
-    known = {}                       # id(array) -> block string (arrays are kept alive in `blocks`)
-    cur = {'phi': g._phi_l, 'psi': g._psi_l, 'phi_v': g._phi_l.copy(), 'psi_v': g._psi_l.copy(), 'epoch': 0}
+class Runner:
+    """drives one real generator and writes one canonical state string per call (the model's format)"""
 
-    def track_epoch():
+    def __init__(self, g, Ts, epoch=0, known=None):
+        self.g, self.Ts = g, Ts
+        self.states, self.blocks = [], []
+        self.known = dict(known or {})    # id(array) -> block string (arrays are kept alive in `blocks`)
+        self.cur = {'phi': g._phi_l, 'psi': g._psi_l, 'phi_v': g._phi_l.copy(), 'psi_v': g._psi_l.copy(),
+                    'epoch': epoch}
+        self.have_hook = hasattr(_impl().JakesSampleGenerator, '_generate_time_samples')
+
+    def track_epoch(self):
         """a new draw of phi/psi = new array objects or changed contents"""
+        g, cur = self.g, self.cur
         if (g._phi_l is not cur['phi'] or g._psi_l is not cur['psi']
                 or not np.array_equal(g._phi_l, cur['phi_v']) or not np.array_equal(g._psi_l, cur['psi_v'])):
             cur.update({'phi': g._phi_l, 'psi': g._psi_l, 'phi_v': g._phi_l.copy(), 'psi_v': g._psi_l.copy(),
                         'epoch': cur['epoch'] + 1})
-    have_hook = hasattr(_impl().JakesSampleGenerator, '_generate_time_samples')
 
-    def counter():
+    def counter(self):
         """number of the next sample: the integer attribute when the code has one (read as is, so a
         fixed-width / wrapped value shows), else the float time of the next sample over Ts"""
+        g = self.g
         try:
             if hasattr(g, '_sample_index'):
                 v = g._sample_index
                 return str(int(v)) if int(v) == v else repr(v)
-            return str(int(round(float(g._current_time) / float(Ts))))
+            return str(int(round(float(g._current_time) / float(self.Ts))))
         except Exception:
             return 'x'
 
-    def snapshot(prod, err='-'):
-        last = g.get_samples()
-        states.append('k=%s e=%d shape=%s prod=%s last=%s err=%s'
-                      % (counter(), cur['epoch'], fmt_shape(g.shape), prod or '-',
-                         '-' if last is None else known.get(id(last), 'unknown'), err))
+    def snapshot(self, prod, err='-'):
+        last = self.g.get_samples()
+        self.states.append('k=%s e=%d shape=%s prod=%s last=%s err=%s'
+                           % (self.counter(), self.cur['epoch'], fmt_shape(self.g.shape), prod or '-',
+                              '-' if last is None else self.known.get(id(last), 'unknown'), err))
 
-    def record_block(k_before):
+    def record_block(self, k_before):
+        g, cur = self.g, self.cur
         h = g.get_samples()
-        t = g.verif_times[-1] if (have_hook and g.verif_times) else None
-        first = '?' if t is None else k_before if t.size == 0 else str(int(round(float(t[0]) / Ts)))
+        t = g.verif_times[-1] if (self.have_hook and g.verif_times) else None
+        first = '?' if t is None else k_before if t.size == 0 else str(int(round(float(t[0]) / self.Ts)))
         s = block_str(h.shape, first, h.shape[-1] if h.ndim else -1, cur['epoch'])
-        known[id(h)] = s
-        blocks.append({'h': h, 'copy': h.copy(), 't': t, 'first': first, 'epoch': cur['epoch'],
-                       'phi': cur['phi_v'], 'psi': cur['psi_v'], 'str': s})
+        self.known[id(h)] = s
+        self.blocks.append({'h': h, 'copy': h.copy(), 't': t, 'first': first, 'epoch': cur['epoch'],
+                            'phi': cur['phi_v'], 'psi': cur['psi_v'], 'str': s})
         return s
 
-    snapshot(record_block('0'))
-    for kind, arg in case['ops']:
-        kb = counter()
+    def apply(self, kind, arg):
+        g = self.g
+        kb = self.counter()
         nt = len(g.verif_times)
         nb = None
         try:
             if kind == 'g':
-                if arg is None:
-                    g.generate_more_samples()
-                else:
-                    g.generate_more_samples(mk_size(arg))
+                call_size_op(g, 'g', arg)
                 nb = True
             elif kind == 's':
-                g.skip_samples_for_next_generation(mk_size(arg))
+                call_size_op(g, 's', arg)
+            elif kind == 'Q':
+                do_query(g, arg)
             else:
                 obj = mk_shape(arg)
                 g.shape = obj
@@ -1409,12 +1552,64 @@ def impl_history(case, Probe):
             err = '-'
         except Exception as e:
             err = type(e).__name__
-        if nb and err == '-' and have_hook and len(g.verif_times) != nt + 1:
-            have_hook = False
-        track_epoch()
-        snapshot(record_block(kb) if (nb and err == '-') else None, err)
-    intact = all(np.array_equal(b['h'], b['copy']) for b in blocks)
-    return states, blocks, have_hook, intact
+        if nb and err == '-' and self.have_hook and len(g.verif_times) != nt + 1:
+            self.have_hook = False
+        self.track_epoch()
+        self.snapshot(self.record_block(kb) if (nb and err == '-') else None, err)
+
+    def fork(self, how):
+        """a derived object (copy / deepcopy / pickle round trip) and the runner that follows it: what it
+        holds as get_samples() is the parent's last block"""
+        child = derive(self.g, how)
+        known = {}
+        last_p, last_c = self.g.get_samples(), child.get_samples()
+        if last_c is not None and last_p is not None:
+            known[id(last_c)] = self.known.get(id(last_p), 'unknown')
+        r = Runner(child, self.Ts, self.cur['epoch'], known)
+        r.keep = last_c
+        if not (np.array_equal(child._phi_l, self.g._phi_l) and np.array_equal(child._psi_l, self.g._psi_l)):
+            r.cur['epoch'] = -1         # a copy with other phases: shows up in every state string
+        return r
+
+    def intact(self):
+        return all(np.array_equal(b['h'], b['copy']) for b in self.blocks)
+
+
+def impl_history(case, Probe):
+    """run a raw history (typed arguments and argument forms, rejected calls and non-mutating calls
+    included) on the real generator; one canonical state string per state (constructor first) + the
+    numeric material for the value / time comparison + whether every array handed out is still what it
+    was (R3).  case['fork'] = {'at': i, 'how': .., 'child': ops}: after i calls an object is derived from
+    the generator (R13); half of its calls are made at once, the other half after the parent's remaining
+    calls; its states are returned as a second list."""
+    Ts = scaled(case)[1]
+    ctor_shape = mk_shape(case['shape'])
+    g = make_gen(case, Probe, shape_obj=ctor_shape)
+    if isinstance(ctor_shape, list):
+        ctor_shape.append(5)            # the caller goes on using its own list
+    r = Runner(g, Ts)
+    r.snapshot(r.record_block('0'))
+    fork = case.get('fork')
+    child, later = None, []
+    for i, (kind, arg) in enumerate(case['ops']):
+        if fork and i == fork['at']:
+            child = r.fork(fork['how'])
+            half = len(fork['child']) // 2
+            for k2, a2 in fork['child'][:half]:
+                child.apply(k2, a2)
+            later = fork['child'][half:]
+        r.apply(kind, arg)
+    if fork and child is None:
+        child = r.fork(fork['how'])
+        later = fork['child']
+    for k2, a2 in later:
+        child.apply(k2, a2)
+    intact = r.intact() and (child is None or child.intact())
+    if child is not None:
+        r.child_states = child.states
+        r.blocks += child.blocks
+    return r.states, r.blocks, r.have_hook and (child is None or child.have_hook), intact, \
+        (child.states if child is not None else None)
 
 
 def ctor_shape_tok(spec):
@@ -1474,15 +1669,31 @@ def correspondence(ctx, cases):
     Probe = probe_class()
     lines = ['histx shape=%s ops=%s' % (ctor_shape_tok(c['shape']), ','.join(op_tok(o) for o in c['ops'])) for c in cases]
     replies = drv.ask(lines)
+    forked = [c for c in cases if c.get('fork')]
+    child_replies = dict(zip([id(c) for c in forked], drv.ask(
+        ['histx shape=%s ops=%s' % (ctor_shape_tok(c['shape']),
+                                    ','.join(op_tok(o) for o in c['ops'][:c['fork']['at']] + c['fork']['child']))
+         for c in forked])))
     vlines, vmeta = [], []
     tlines, tmeta = [], []
     for c, rep in zip(cases, replies):
         try:
-            states, blocks, have_hook, intact = impl_history(c, Probe)
+            states, blocks, have_hook, intact, child_states = impl_history(c, Probe)
             impl = ' | '.join(states)
         except Exception as e:
-            impl, blocks, have_hook, intact = 'exception:%s' % type(e).__name__, [], False, True
+            impl, blocks, have_hook, intact, child_states = 'exception:%s' % type(e).__name__, [], False, True, None
         model = rep
+        if c.get('fork'):
+            # R13: the derived object continues like an object that ran the parent's history up to the
+            # fork (model: the same state value), whatever the parent is asked meanwhile
+            at = min(c['fork']['at'], len(c['ops']))
+            cm = ' | '.join(child_replies[id(c)].split(' | ')[at + 1:])
+            ci = 'exception' if child_states is None else ' | '.join(child_states)
+            if not have_hook:
+                import re
+                cm = re.sub(r'(\d)/\d+/(\d+)/(\d+)', r'\1/?/\2/\3', cm)
+            ctx.corr('history.derived-object', c, ci, cm, key=('fork', repr(c['fork']), repr(c['ops'])))
+            ctx.branch('corr:R13-derived-' + c['fork']['how'])
         if not have_hook:
             # no time hook: the first-sample number is not observable; compare the rest
             ctx.branch('time-hook-missing')
